@@ -11,6 +11,7 @@ from ..oracle import WalkOracle, Or, And, redirects_regular
 from ..harness import Query
 
 ID = 'C18'
+DEFAULT_FEATURES = True   # fast-check data is part of the graph state
 ASSUMPTIONS = [
     'representation invariant of DESIGN.md section 3; segment roots are an arbitrary subset of the specifier universe passed in id order',
     'equality with a direct build of the segment roots is NOT decided (needs the async builder); the segment is compared with the original graph and with the walk oracle',
